@@ -44,6 +44,40 @@ def run(v, tier, seed, replay=None):
             if ndis == 1:
                 v.violation('corr:C10', 'model and implementation disagree on a hostile file (%s): %s | %s' % (what, m[:150], i[:150]),
                             {'file_hex': data.hex()[:8000], 'model': m[:600], 'impl': i[:600]}, no_input=True)
+    # a length field pointing megabytes ahead (below the allocation cap) in a file that HAS megabytes of data behind it: the
+    # request is larger than any buffer the pipeline was set up with, so the inflating worker has to be let on until the
+    # request can be served or the end of the file shows that it cannot
+    import struct
+    from .. import sessrun
+    mexe = common.build_model_driver()
+    tf = [f for f, kd, nm, _ in filerun.Gen(meta, __import__('random').Random(seed)).view('AppText').fields if nm == 'text'][0]
+    eo = codec.run_model(mexe, ['W 11 %d=x%s' % (tf, (bytes([97 + j]) * 1000).hex()) for j in range(4)])
+    encs = [bytes.fromhex(e.split(' ')[2]) for e in eo if e.startswith('W ok ')]
+    nbig = 0
+    if len(encs) == 4:
+        plain, _ = sessrun.harnesses()
+        lines, descr = [], []
+        for declared in ((0x140000, 0x800000, 0x1000000) if tier == 'quick' else (0x100001, 0x140000, 0x400000, 0x800000, 0x1000000, 0x8000000)):
+            for nobj in ((2600,) if tier == 'quick' else (1400, 2600)):
+                objs = [bytearray(encs[j % 4]) for j in range(nobj)]
+                struct.pack_into('<I', objs[5], 40, declared)           # AppText::textLength of object #5
+                stream = b''.join(bytes(o) for o in objs)
+                data = filerun.file_of([filerun.wrap_container(stream[j:j + 0x20000], 0) for j in range(0, len(stream), 0x20000)])
+                lines.append('FE -1 0 0 ' + data.hex())
+                descr.append((declared, nobj, len(data), declared > len(stream)))
+        bo = sessrun.run_impl(plain, lines, 0, {'VERIF_WD_SECONDS': '20'})
+        for (declared, nobj, ln, beyond), o in zip(descr, bo):
+            if o == 'SKIPPED':
+                continue
+            nbig += 1
+            kinds['ends' if o.startswith('FE ok') else 'big:' + o[:5]] += 1
+            # a text that the file can still serve is decoded (from whatever follows) and parsing goes on behind it; one that
+            # reaches beyond the end of the file cannot be: the five objects before it, then the end
+            if not o.startswith('FE ok n=5 ' if beyond else 'FE ok'):
+                v.violation('C10:%s:big-length' % ('hang' if o.startswith('HANG') else 'other'),
+                            'reading a file of %d AppText objects (%d bytes, 128 KiB containers) whose 6th object declares a text of %d bytes: %s' % (nobj, ln, declared, 'the read loop does not end (%s)' % o[:60] if o.startswith('HANG') else o[:100]),
+                            {'file': '%d AppText objects of 1000 text bytes in method-0 containers of 0x20000 bytes; textLength (offset 40) of object #5 set to %d' % (nobj, declared),
+                             'scenario': 'FE -1 0 0 <file>', 'implementation': o[:300], 'expected': 'FE ok n=5 ... (the five objects before it, then the end)'})
     # object level: every decoder on truncated / substituted encodings (shared codec run)
     cres = codecrun.run(meta, seed, tier)
     ncodec = 0
@@ -62,7 +96,7 @@ def run(v, tier, seed, replay=None):
         'obligations': info['obligations'], 'discharged': info['discharged'], 'checker_cmd': info['checker_cmd'],
         'trusted_base': TRUSTED + info['print_assumptions'], 'failed_obligations': info['failed'],
         'evaluations': len(cases) + ncodec, 'distinct_nontrivial': len(set(d for _, d, _, _ in cases if len(d) > 144)) + len(set(c['line'] for c in cres['cases'] if c['kind'] == 'R')),
-        'rule': 'files: every written file of the file-layer run truncated (boundary + random offsets; every offset of small files in thorough) and mutated (single bytes with boundary values, aligned 16/32-bit fields with {0,1,0x7f..,0x80..,0xff..,sizes}, block duplication / deletion), plus hand-assembled hostile object headers (objectSize 0,1,4,15,16,17,+-1,2x,0x7fffffff,0x80000000,0xfffffff0; headerSize; type swapped; length members set to huge values) and hostile container headers (objectSize, uncompressedFileSize, method, type) in method-0 and zlib containers of several sizes; object level: every decoder on truncated and byte/16/32-bit substituted encodings. Outcome classes compared with the model; any sanitizer report, watchdog expiry or escaped exception is a violation. Non-trivial = distinct file longer than the header / distinct encoding.',
+        'rule': 'files: every written file of the file-layer run truncated (boundary + random offsets; every offset of small files in thorough) and mutated (single bytes with boundary values, aligned 16/32-bit fields with {0,1,0x7f..,0x80..,0xff..,sizes}, block duplication / deletion), plus hand-assembled hostile object headers (objectSize 0,1,4,15,16,17,+-1,2x,0x7fffffff,0x80000000,0xfffffff0; headerSize; type swapped; length members set to huge values; a length member of a few MiB — above every pipeline buffer, below the allocation cap — in files with MiB of data behind it) and hostile container headers (objectSize, uncompressedFileSize, method, type) in method-0 and zlib containers of several sizes; object level: every decoder on truncated and byte/16/32-bit substituted encodings. Outcome classes compared with the model; any sanitizer report, watchdog expiry or escaped exception is a violation. Non-trivial = distinct file longer than the header / distinct encoding.',
         'file_outcomes': dict(kinds), 'codec_read_cases': ncodec, 'correspondence_disagreements': ndis,
         'samples': [w for w, _, _, _ in cases[:3]] + [cases[-1][1].hex()[:160]],
     })
